@@ -13,7 +13,7 @@ ROOTS = (T + "timezone::TimeZone::from_tz_data", T + "timezone::TimeZone::from_p
 def run(chk, tier):
     P = Prog("default")
     chk.configs.add("default")
-    for r in (r_absint, r_block_order, r_header_order, r_header_counts, r_tz_string_consumed, r_hms_weights, r_rule_boxes, r_validate, r_validate_cover, r_validate_leaps, r_record_layout, r_offset_sign, r_data_indices, r_ltt_box, r_footer, r_capacity, r_header_consts, r_footer_extensions):
+    for r in (r_absint, r_block_order, r_header_order, r_header_counts, r_tz_string_consumed, r_hms_weights, r_rule_boxes, r_validate, r_validate_cover, r_validate_leaps, r_record_layout, r_offset_sign, r_data_indices, r_ltt_box, r_footer, r_capacity, r_header_consts, r_footer_extensions, r_errors_kept):
         chk.guarded(r, P, tier)
     chk.assume("that every conforming file is accepted and decoded to exactly the written transitions/types/rule is not decided (value-level)")
     return {
@@ -599,6 +599,28 @@ def r_footer_extensions(chk, P, tier):
         return
     bad = [v for v in verdicts if (v[0] == "eq" and v[1] != ("V3",)) or (v[0] == "switch" and (v[2] is None or v[1] != v[2]))]
     chk.expect(not bad, "flag", "parser::parse enables footer extensions for other versions than V3: %s" % sorted(map(str, bad)), loc=P.loc(fn))
+
+
+def r_errors_kept(chk, P, tier):
+    """error discipline of the acceptance path: in validate(), TimeZone::new and parser::parse an Err from an in-crate Result-returning callee is never
+    turned into acceptance (no path that saw such an Err returns Ok). from_posix_tz, which legitimately falls back from a failed file lookup, is not in the list."""
+    chk.rule("ERR.kept", "validate(), TimeZone::new and parser::parse: no path on which an in-crate callee returned Err ends in Ok", floor=3)
+    for fn in (T + "timezone::TimeZoneRef::<'a>::validate", T + "timezone::TimeZone::new", T + "parser::parse"):
+        bad = set()
+        n = 0
+        for p in Sym(P, fn).paths():
+            # accepting path: returns Ok(..) or hands back another constructor's result (parse ends in TimeZone::new(..))
+            if p.end[0] != "return" or p.ret is None or result_variant(p.ret)[0] == "Err":
+                continue
+            n += 1
+            for k in p.conds:
+                if k[0][0] == "switch" and k[1][0] == "discr" and k[1][1][0] == "call" and isinstance(k[1][1][1], str) and k[2] == 1:
+                    f = P.fns.get(k[1][1][1])
+                    if f and isinstance(f.get("ret"), int) and P.ty_s(f["ret"]).startswith("std::result::Result<"):
+                        bad.add(k[1][1][1].split("::")[-1])
+        if not n:
+            raise AnchorLost(fn + " has no Ok path")
+        chk.expect(not bad, fn.split("::")[-1], "%s returns Ok on a path where %s returned Err (the error is swallowed)" % (fn, sorted(bad)), loc=P.loc(fn))
 
 
 def r_header_counts(chk, P, tier):
